@@ -12,11 +12,11 @@ LEVEL = "exploration"
 TECHNIQUE = "runtime monitor: instrumented StreamInterface (counting/freezing/splicing extreme uniforms) + twin/interleave/re-point differential draws + support oracle"
 RULE = ("family 'cell': (class, parameter set) cells over all 19 concrete distribution classes with parameters from "
         "the documented domain inside a stated numeric envelope incl. closed end points; each cell runs twin, "
-        "interleave, re-point(+frozen old stream), 100 support-checked draws, density evaluation and the splice "
+        "interleave, re-point(+frozen old stream), a shallow copy given its own stream, 100 support-checked draws, density evaluation and the splice "
         "sweep (single, adjacent pair, repeated at stride 2 and 3, run of 4); family 'domain': out-of-domain parameter sets must be refused at construction; family 'wrap': every "
         "QuantityDist wrapper; non-trivial(cell) = the splice sweep hit >= 10 spliced positions and the draw "
         "consumes >= 1 uniform; distinct = canonical (class, parameters) hash")
-ASSUMPTIONS = ["numeric envelope: shape-like parameters in [0.05, 50], scales in [1e-3, 1e3], Poisson rate <= 2500, Erlang k <= 40, "
+ASSUMPTIONS = ["numeric envelope: shape-like parameters in [0.05, 50], scales in [1e-3, 1e3], Poisson rate <= 2500, Erlang k <= 400, "
                "Binomial n <= 200, |mu| <= 5 and sigma in [1e-3, 5] for (log-)normal; beyond it float range, not sampler logic, decides",
                "'old stream never consumed again' is observed over the next 200 draws",
                "NaN parameters are not generated (NaN compares false with every documented bound)"]
@@ -79,7 +79,7 @@ GEN = {
     "DistBinomial": lambda r: [r.choice([1, 2, 10, 200, r.randint(1, 200)]), _prob(r)],
     "DistConstant": lambda r: [r.choice([0, 1.5, -7, 1e9])],
     "DistDiscreteUniform": lambda r: (lambda lo: [lo, lo + r.choice([1, 2, 6, 1000, 2 ** 40])])(r.choice([0, 1, -10, 10 ** 6])),
-    "DistErlang": lambda r: [_scale(r), r.choice([1, 2, 5, 9, 10, 11, 40])],
+    "DistErlang": lambda r: [_scale(r), r.choice([1, 2, 5, 9, 10, 11, 40, 101, 172, 400])],
     "DistExponential": lambda r: [_scale(r)],
     "DistGamma": lambda r: [_shape(r), _scale(r)],
     "DistGeometric": lambda r: [_prob(r)],
@@ -320,6 +320,31 @@ def run_case(case, ctx):
             if fx(a) != fx(b):
                 ctx.viol(f"refused-stream-assignment-changed-the-draws:{cls}", {**info, "pre_draws": pre, "draw_index": k, "got": fx(a), "twin": fx(b)})
                 return
+    # ---- a copy of a distribution object that is given a stream of its own (copy.copy, then .stream = other): the original
+    # goes on drawing from its own stream as if the copy did not exist, and the copy draws from the other stream only
+    import copy
+    for pre in (0, 2):
+        own, other, town, tother = CountingStream(seed + 5), CountingStream(seed + 9), CountingStream(seed + 5), CountingStream(seed + 9)
+        d, twin = _mk(cls, own, args), _mk(cls, town, args)
+        for _ in range(pre):
+            d.draw(); twin.draw()
+        c = copy.copy(d)
+        c.stream = other
+        fresh = _mk(cls, tother, args)
+        ctx.count("copies_given_a_stream_of_their_own")
+        for k in range(12):
+            a, b = d.draw(), twin.draw()
+            x, y = c.draw(), fresh.draw()
+            if fx(a) != fx(b) or own.calls != town.calls:
+                ctx.viol(f"copy-with-its-own-stream-disturbs-the-original:{cls}", {**info, "pre_draws": pre, "draw_index": k, "original": fx(a), "undisturbed_twin": fx(b),
+                                                                                  "uniforms_taken_from_own_stream": own.calls, "twin": town.calls})
+                return
+            if fx(x) != fx(y) or other.calls != tother.calls:
+                ctx.viol(f"copy-does-not-draw-from-its-own-stream:{cls}", {**info, "pre_draws": pre, "draw_index": k, "copy": fx(x), "fresh": fx(y)})
+                return
+        if d.stream is not own or c.stream is not other:
+            ctx.viol(f"stream-getter-after-repoint:{cls}", {**info, "note": "after a copy was given its own stream"})
+            return
     # ---- the same stream object re-seeded and assigned again (what a model does between replications with long-lived
     # distribution objects): the draws that follow equal those of a fresh instance on an equally seeded stream
     for pre in (1, 2, 3):
